@@ -54,7 +54,8 @@ def row_key(draw, n):
 
 TABLE_COLS = {
     "chroms": ["name", "length"],
-    "bins": ["chrom", "start", "end", "gc", "mask", "cls"],
+    # "chrom_arm": an integer column whose NAME contains "chrom" (it is not the chromosome column)
+    "bins": ["chrom", "start", "end", "gc", "mask", "cls", "chrom_arm"],
     "pixels": ["bin1_id", "bin2_id", "count", "x"],
 }
 
@@ -92,7 +93,8 @@ def _gc_mask(n):
 
     gc = np.array([((7 * k) % 16) / 16.0 if k % 5 else np.nan for k in range(n)], dtype="float64")
     mask = np.array([k % 3 for k in range(n)], dtype="int8")
-    return {"gc": gc, "mask": mask, "cls": pd.Categorical(_cat_values(n), categories=CAT_LEVELS)}
+    return {"gc": gc, "mask": mask, "cls": pd.Categorical(_cat_values(n), categories=CAT_LEVELS),
+            "chrom_arm": np.array([k % 4 for k in range(n)], dtype="int64")}
 
 
 def make_cooler(ctx, c):
@@ -137,6 +139,7 @@ def _model_table(c, table):
         ex = _gc_mask(n)
         # extra columns come back in the (alphabetical) order in which HDF5 lists them
         return {"chrom": [b[0] for b in br], "start": [b[1] for b in br], "end": [b[2] for b in br],
+                "chrom_arm": ex["chrom_arm"].tolist(),
                 "cls": [float("nan") if v is None else v for v in _cat_values(n)],
                 "gc": ex["gc"].tolist(), "mask": ex["mask"].tolist()}
     if table == "pixels":
@@ -247,7 +250,7 @@ def annotate_cases(draw):
         part = [a, b]
     else:
         part = None
-    bcols = draw(st.lists(st.sampled_from(["chrom", "start", "end", "gc", "mask", "cls"]), min_size=1, max_size=6, unique=True)) \
+    bcols = draw(st.lists(st.sampled_from(["chrom", "start", "end", "gc", "mask", "cls", "chrom_arm"]), min_size=1, max_size=6, unique=True)) \
         if form == "selector-cols" else None
     index_kind = draw(st.sampled_from(["range", "shuffled", "offset", "strings"]))
     return {"part": "annotate", **c, "ids": [list(t) for t in ids], "which": which, "form": form, "partial": part,
@@ -301,7 +304,7 @@ def check_annotate(case, ctx: Ctx):
         again = call("annotate (same pixel frame, second time)", cooler.annotate, px, bins, replace=case["replace"])
         check(list(again.columns) == list(out.columns) and len(again) == len(out), "annotating the same pixel frame a second time gives other columns")
         full = _model_table(case, "bins")
-        bcols = case["bcols"] or ["chrom", "start", "end", "cls", "gc", "mask"]
+        bcols = case["bcols"] or ["chrom", "start", "end", "chrom_arm", "cls", "gc", "mask"]
         check(len(out) == m, f"annotate returned {len(out)} rows for {m} pixels")
         check(out.index.tolist() == index, "annotate does not keep the pixels' index")
         check(out["count"].tolist() == data["count"].tolist(), "annotate reorders the pixels")
